@@ -85,6 +85,10 @@ def helper_contract(world, nscls, attr, target, m, c, node):
             return d
         _, name, bound, missing, r = calls[0]
         d['same-named-method'] = z3.BoolVal(name == node.name)
+        # a helper is called like the method it stands for: the parameters both accept positionally come in the same order
+        mine = [p for p in pos[1:] if p in tpos[1:]]
+        theirs = [p for p in tpos[1:] if p in pos[1:]]
+        d['positional-parameters-in-the-order-of-the-underlying-method'] = z3.BoolVal(mine == theirs)
         ns_self = cx.pre.get('nsobj', 'namespace').leaf()
         for p in params:
             if p not in tparams:
